@@ -1,1 +1,62 @@
-fn main() {}
+//! Full-verifier harness: hfull <cmd> [--seed n] [--tier t] [--out file] [--repo /repo] ...
+mod layouts;
+mod load;
+mod domains;
+mod matrix;
+mod recorded;
+mod trace;
+mod stone;
+
+use vcommon::report::{Args, Report};
+
+fn dump(args: &Args) -> Report {
+    let files = load::shipped(&args.str("repo", "/repo"));
+    let f = files.iter().find(|f| f.name.contains(&args.str("match", "recursive/cairo0_stone5"))).unwrap();
+    let p = load::load_via_repo(f).unwrap();
+    let v = serde_json::to_value(&p).unwrap();
+    fn shape(v: &serde_json::Value, depth: usize, out: &mut String, key: &str) {
+        match v {
+            serde_json::Value::Object(m) => {
+                out.push_str(&format!("{}{}: {{\n", " ".repeat(depth), key));
+                for (k, x) in m {
+                    shape(x, depth + 1, out, k);
+                }
+            }
+            serde_json::Value::Array(a) => {
+                out.push_str(&format!("{}{}: [{}] first={}\n", " ".repeat(depth), key, a.len(), a.first().map(|x| x.to_string().chars().take(60).collect::<String>()).unwrap_or_default()));
+            }
+            x => out.push_str(&format!("{}{}: {}\n", " ".repeat(depth), key, x.to_string().chars().take(70).collect::<String>())),
+        }
+    }
+    let mut s = String::new();
+    shape(&v, 0, &mut s, "proof");
+    println!("{s}");
+    let t0 = std::time::Instant::now();
+    let r = load::verify_as(&f.layout, &p, p.config.security_bits());
+    println!("verify: {:?} in {:?}", r, t0.elapsed());
+    Report::new()
+}
+
+fn main() {
+    let args = Args::parse();
+    vcommon::guard::install();
+    let t0 = std::time::Instant::now();
+    let rep = match args.cmd.as_str() {
+        "dump" => Some(dump(&args)),
+        "matrix" => Some(matrix::run(&args)),
+        "domains" => Some(domains::run(&args)),
+        "recorded" => Some(recorded::run(&args)),
+        _ => vcomp::dispatch(&args),
+    };
+    match rep {
+        Some(mut rep) => {
+            rep.count("wall_ms", t0.elapsed().as_millis() as u64);
+            rep.note(&format!("build: {} {}", vcomp::build_hash().name(), layouts::build_stone()));
+            rep.write(&args.str("out", "-"));
+        }
+        None => {
+            eprintln!("unknown command {:?}", args.cmd);
+            std::process::exit(3);
+        }
+    }
+}
